@@ -23,19 +23,20 @@ Proof.
 Qed.
 
 Definition tok_readable (t : tok) : Prop :=
-  match fst t with NUMBER => num_readable (snd t) | TO => False | _ => True end.
+  match fst t with NUMBER => num_readable (snd t) | TO | WORD => False | _ => True end.
 Lemma numbers_readable :
   (forall x, (forall t, In t (toks_operand x) -> tok_readable t) -> readable_operand x) /\
   (forall e, (forall t, In t (toks_expr e) -> tok_readable t) -> readable_expr e) /\
-  (forall r, (forall t, In t (toks_tail r) -> tok_readable t) -> readable_tail r).
+  (forall r, (forall t, In t (toks_tail r) -> tok_readable t) -> readable_tail r) /\
+  (forall a : args, True) /\ (forall m : more, True).
 Proof.
-  apply syntax_mut.
+  apply syntax_mut; try (intros; exact I).
   - intros t H. apply (H (NUMBER, t)). left. reflexivity.
   - intros t w pt H. apply (H (NUMBER, t)). left. reflexivity.
   - intros po pc w1 e IHe w2 H. cbn [readable_operand]. apply IHe. intros t Ht. apply H. cbn [toks_operand]. right.
     apply in_or_app. right. apply in_or_app. left. exact Ht.
+  - intros name po pc a _ H. apply (H (WORD, name)). left. reflexivity.
   - intros x IHx r IHr H. cbn [readable_expr]. split; [apply IHx|apply IHr]; intros t Ht; apply H; cbn [toks_expr]; apply in_or_app; tauto.
-  - intros _. exact I.
   - intros wb a txt wa x IHx r IHr H. cbn [readable_tail]. split; [apply IHx|apply IHr]; intros t Ht; apply H; cbn [toks_tail];
       apply in_or_app; right; right; apply in_or_app; right; apply in_or_app; tauto.
   - intros wb txt wa u r IHr H. cbn [readable_tail]. apply (H (TO, txt)). cbn [toks_tail]. apply in_or_app. right. left. reflexivity.
@@ -88,6 +89,7 @@ Fixpoint skel_operand (x : operand) : operand :=
   | Num t => Num t
   | Pct t _ pt => Pct t [] pt
   | Paren po pc _ e _ => Paren po pc [] (skel_expr e) []
+  | Call name po pc a => Call name po pc a
   end
 with skel_expr (e : ParseChains.expr) : ParseChains.expr := match e with Chain x r => Chain (skel_operand x) (skel_tail r) end
 with skel_tail (r : tail) : tail :=
@@ -108,12 +110,14 @@ Qed.
 Lemma skel_sem :
   (forall x, sem_operand (skel_operand x) = sem_operand x) /\
   (forall e, sem_expr (skel_expr e) = sem_expr e) /\
-  (forall r, prios (skel_tail r) = prios r /\ (forall m, tsem (skel_tail r) m = tsem r m) /\ (forall m, tbin (skel_tail r) m = tbin r m)).
+  (forall r, prios (skel_tail r) = prios r /\ (forall m, tsem (skel_tail r) m = tsem r m) /\ (forall m, tbin (skel_tail r) m = tbin r m)) /\
+  (forall a : args, True) /\ (forall m : more, True).
 Proof.
-  apply syntax_mut.
+  apply syntax_mut; try (intros; exact I).
   - reflexivity.
   - reflexivity.
   - intros po pc w1 e IHe w2. cbn [skel_operand sem_operand]. exact IHe.
+  - reflexivity.
   - intros x IHx r (Hp & Hs & Hb). cbn [skel_expr sem_expr]. rewrite Hp. apply texpr_ext.
     + intros [|n]; [exact IHx|apply Hs].
     + intros [|i]; [reflexivity|apply Hb].
